@@ -381,6 +381,37 @@ class CountingBason(ReduceToBason):
         return super().step(loss)
 
 
+
+def _ref_over_history(stepper, cfg, budget, out, what, step, key):
+    """The losses a driver fed to its stepper, replayed through the reference automaton: the driver loop must
+    have ended exactly at the automaton's first stop (not earlier, not later)."""
+    ref = RefCtl(budget, cfg["patience"])
+    d, tol = float(cfg["decreasing"]), float(cfg["tol"])
+    last = None
+    hist = stepper.history[-stepper.calls_this:] if stepper.calls_this else []
+    for k, loss in enumerate(hist):
+        vals = _vals(loss)
+        if any((not math.isfinite(v)) or v <= 0 for v in vals):
+            out.declined("C20.driver(loss outside alphabet)"); return
+        fails = []
+        for j, v in enumerate(vals):
+            if last is None:
+                fails.append(False); continue
+            rel = (last[j] - v) / v
+            if abs(rel - d) <= 1e-6 * max(abs(rel), abs(d), 1e-300) or abs(v - tol) <= 1e-6 * tol:
+                out.declined("C20.near-threshold"); return
+            fails.append(rel < d)
+        below = all(v < tol for v in vals)
+        ref.step(not all(fails), below_tol=below)
+        last = vals
+        if ref.stopped and k < len(hist) - 1:
+            raise Violation("C20.continual", "%s: the loop went on for %d controller steps although the reference "
+                            "automaton stops at step %d (%s)" % (what, len(hist), k + 1, ref.cause), step, key + ":late")
+    if hist and not ref.stopped:
+        raise Violation("C20.continual", "%s: the loop ended after %d controller steps although no stop condition had "
+                        "fired (budget %d, patience %d)" % (what, len(hist), budget, cfg["patience"]), step, key + ":early")
+
+
 def _drive_mpc(plan, out, tr):
     c = plan["config"]
     s = plan["seed"]
@@ -416,6 +447,8 @@ def _drive_mpc(plan, out, tr):
         if n > steps:
             raise Violation("C20.budget", "MPC.forward call #%d made %d controller steps, budget steps=%d" %
                             (o["id"], n, steps), o["id"], "mpc:budget")
+        # MPC documents 'n-1 loops, 1 loop with gradient': the stepper inside runs with budget steps-1 (at least one loop)
+        _ref_over_history(stepper, c, max(steps - 1, 1) if steps - 1 >= 1 else 1, out, "MPC.forward call #%d" % o["id"], o["id"], "mpc:loop")
     out.nontrivial = True
 
 
@@ -446,6 +479,7 @@ def _drive_icp(plan, out, tr):
         if k > steps:
             raise Violation("C20.budget", "ICP.forward call #%d made %d controller steps, budget steps=%d" %
                             (o["id"], k, steps), o["id"], "icp:budget")
+        _ref_over_history(stepper, c, steps, out, "ICP.forward call #%d" % o["id"], o["id"], "icp:loop")
     out.nontrivial = True
 
 
